@@ -3,6 +3,7 @@ import Tmv.Lemmas.Index
 import Tmv.Lemmas.IndexExact
 import Tmv.Lemmas.BlockIndex
 import Tmv.Lemmas.BlockExact
+import Tmv.Model.EventBus
 import Tmv.Model.BlockIndex
 /-! # C19 — Subscribers get exactly their matching events; searches return exact matches
 Property theorems only (pub/sub part).  The model is `Tmv.PubSub` (libs/pubsub as repaired by the
@@ -594,6 +595,34 @@ theorem block_height_shortcut_fails :
                       { key := [97, 46, 98], op := .exists, operand := .none }]
     (BlockIndex.index [] 1 [] []).map (fun db => BlockIndex.search db q) = some (.heights [1]) := by
   decide
+
+/-- **What a subscriber is matched against and what the index is searched by are the same
+attributes**: `validateAndStringifyEvents` (event bus) and `indexEvents` (tx index) flatten the
+ABCI events in the same way — same skipping of empty types and empty keys, empty values kept —
+and differ only by the `index` flag: when every attribute of a tx asks to be indexed, the two
+attribute lists are equal.  (With `search_exact_clean` and `Query.Matches` on the published map,
+a subscriber and a search with the same query — not mentioning `tm.event`/`tx.hash` — then agree
+on that tx; the stream checks this agreement on the real EventBus and the real index.) -/
+theorem bus_and_index_flatten_alike (r : TxResult)
+    (hall : ∀ e ∈ r.events, ∀ a ∈ e.attrs, a.index = true) :
+    EventBus.flatten r.events = indexedAttrs r := by
+  unfold EventBus.flatten indexedAttrs
+  generalize r.events = evs at hall
+  induction evs with
+  | nil => rfl
+  | cons e rest ih =>
+    simp only [List.flatMap_cons]
+    rw [ih (fun e' he' => hall e' (List.mem_cons_of_mem _ he'))]
+    congr 1
+    split
+    · rfl
+    · have hfe := hall e List.mem_cons_self
+      generalize e.attrs = as at hfe
+      induction as with
+      | nil => rfl
+      | cons a rest' ih2 =>
+        simp only [List.filterMap_cons, hfe a List.mem_cons_self, if_true]
+        rw [ih2 (fun a' ha' => hfe a' (List.mem_cons_of_mem _ ha'))]
 
 end index
 
